@@ -509,6 +509,9 @@ def months_inc(start_date, months, eomonth=False):
         return NUM_ERROR
     if eomonth:
         d = max_days_in_month(m, y)
+    else:
+        # a day past the end of the shifted month is that month's last day
+        d = min(d, max_days_in_month(m, y))
     return date(y, m, d)
 
 
